@@ -320,6 +320,18 @@ def decodeU (c : Bool) : List Nat → List Schema → Nat → Bytes → Option V
   | _, _, _, _ => Option.none
 end
 
+/-! ## field extraction (hash pre-images are selected with these) -/
+
+/-- field `i` of a table exactly as the reader slices it (offsets from the header) -/
+def tableFieldBytes (bs : Bytes) (i : Nat) : Option Bytes :=
+  match dynHeader bs with
+  | Option.some offs => (slices bs offs)[i]?
+  | Option.none => Option.none
+
+/-- field `i` of a struct: static offsets -/
+def structFieldBytes (fs : List Schema) (bs : Bytes) (i : Nat) : Bytes :=
+  slice bs (sizeL (fs.take i)) (sizeL (fs.take i) + size (fs.getD i .byte))
+
 /-! ## accessor arithmetic (C16): what the generated readers index with, *without* re-checking -/
 
 /-- `TableReader::field_count()` / `DynVecReader::item_count()` -/
